@@ -83,8 +83,12 @@ pub fn run_cert_case(ctx: &mut Ctx, drv: &mut Driver, p: &PCert, issuer: Option<
 	};
 	let line = format!("cert {} {} {} {}", cfg_name(), p.sexp(), key_s, issuer_s);
 	let model = drv.ask(&line);
-	let Some(real_params) = p.real() else {
-		return CaseOut { line, real: "unconstructible".into(), model, der: None, cert: None, panic_msg: None };
+	// building the parameter values goes through rcgen's public constructors too (CidrSubnet,
+	// string types, ...): a panic there is an outcome like any other
+	let real_params = match catch_unwind(AssertUnwindSafe(|| p.real())) {
+		Ok(Some(x)) => x,
+		Ok(None) => return CaseOut { line, real: "unconstructible".into(), model, der: None, cert: None, panic_msg: None },
+		Err(_) => return CaseOut { line, real: "panic".into(), model, der: None, cert: None, panic_msg: Some(crate::last_panic()) },
 	};
 	let r = catch_unwind(AssertUnwindSafe(|| match issuer {
 		None => real_params.self_signed(key),
@@ -112,8 +116,12 @@ pub fn run_csr_case(ctx: &mut Ctx, drv: &mut Driver, p: &PCert, attrs: &[PAttr],
 		list(&attrs.iter().map(|a| a.sexp()).collect::<Vec<_>>())
 	);
 	let model = drv.ask(&line);
-	let Some(real_params) = p.real() else {
-		return CaseOut { line, real: "unconstructible".into(), model, der: None, cert: None, panic_msg: None };
+	// building the parameter values goes through rcgen's public constructors too (CidrSubnet,
+	// string types, ...): a panic there is an outcome like any other
+	let real_params = match catch_unwind(AssertUnwindSafe(|| p.real())) {
+		Ok(Some(x)) => x,
+		Ok(None) => return CaseOut { line, real: "unconstructible".into(), model, der: None, cert: None, panic_msg: None },
+		Err(_) => return CaseOut { line, real: "panic".into(), model, der: None, cert: None, panic_msg: Some(crate::last_panic()) },
 	};
 	let real_attrs: Vec<Attribute> = attrs.iter().map(|a| a.real()).collect();
 	let r = catch_unwind(AssertUnwindSafe(|| real_params.serialize_request_with_attributes(key, real_attrs)));
@@ -124,8 +132,12 @@ pub fn run_csr_case(ctx: &mut Ctx, drv: &mut Driver, p: &PCert, attrs: &[PAttr],
 pub fn run_crl_case(_ctx: &mut Ctx, drv: &mut Driver, p: &PCrl, issuer: &IssuerCtx) -> CaseOut {
 	let line = format!("crl {} {}", p.sexp(), issuer_sexp(issuer.p, issuer.key));
 	let model = drv.ask(&line);
-	let Some(real_params) = p.real() else {
-		return CaseOut { line, real: "unconstructible".into(), model, der: None, cert: None, panic_msg: None };
+	// building the parameter values goes through rcgen's public constructors too (CidrSubnet,
+	// string types, ...): a panic there is an outcome like any other
+	let real_params = match catch_unwind(AssertUnwindSafe(|| p.real())) {
+		Ok(Some(x)) => x,
+		Ok(None) => return CaseOut { line, real: "unconstructible".into(), model, der: None, cert: None, panic_msg: None },
+		Err(_) => return CaseOut { line, real: "panic".into(), model, der: None, cert: None, panic_msg: Some(crate::last_panic()) },
 	};
 	let r = catch_unwind(AssertUnwindSafe(|| real_params.signed_by(issuer.cert, issuer.key)));
 	let (real, _crl, der, panic_msg) = outcome(r, |c: &CertificateRevocationList| c.der().to_vec());
